@@ -202,11 +202,12 @@ def run_check(check_id, tier, seed):
     by_sig, explained, unexplained = {}, {}, {}
     outcomes = collections.Counter()
     stats = collections.Counter()
-    n_nontrivial = n_timeout = n_crash = transitions = 0
+    n_nontrivial = n_timeout = n_crash = transitions = units = 0
     harness_errors = []
     for case, res in zip(cases, results):
         outcomes[res["outcome"]] += 1
         transitions += int(res.get("steps", 1))
+        units += int(res.get("units", 1))
         for k, v in (res.get("stats") or {}).items():
             stats[k] += v
         if res.get("nontrivial"):
@@ -287,9 +288,9 @@ def run_check(check_id, tier, seed):
                 "payload": _clip(cases[i]["payload"])} for i in sample_idx]
     level = getattr(mod, "LEVEL", "model_checking")
     cov = {
-        "states": int(info.get("states", n_cases)),
+        "states": int(info.get("states", max(units, n_cases))),
         "transitions": int(info.get("transitions", transitions)) or 1,
-        "traces_validated_against_impl": int(info.get("traces", n_cases)),
+        "traces_validated_against_impl": int(info.get("traces", max(units, n_cases))),
         "evaluations": n_cases,
         "distinct_nontrivial": n_nontrivial,
         "rule": getattr(mod, "RULE", ""),
